@@ -241,6 +241,18 @@ def run(ctx):
         if ctx.mine(idx):
             exercise(ctx, im, text, None, 40, "documented", nontrivial="README" in name or "docs" in name)
             ctx.seen("documented_programs", name)
+    # sentences in which the blank inside `not in` / `else if` is written as two blanks, a tab, a line break
+    from pyabv.gen.trivia import inner_whitespace_variants, token_slices
+
+    for text in list(corpus.DOCUMENTED.values()) + corpus.SEEDS:
+        try:
+            sl = token_slices(text)
+        except Exception:  # noqa: BLE001
+            continue
+        for wi, ws, text_v in inner_whitespace_variants(sl):
+            idx += 1
+            if ctx.mine(idx):
+                exercise(ctx, im, text_v, None, 3, "inner-whitespace", nontrivial=True)
     # after a rejected text: nothing of the failure may leak into the next compilation
     for pz in POISON_TEXTS:
         for text in list(corpus.DOCUMENTED.values())[:2] + corpus.SEEDS[:6]:
